@@ -13,7 +13,7 @@ LEVEL = "exploration"
 RULE = ("2..4 tasks share one inverter object, each reading its own register (count 2); the peer answers the n-th "
         "transmission per script over {drop, prompt, delayed-in-time, two fragments} and tags every payload with "
         "(register, n); scenarios = all scripts of depth 4 x start offsets x {udp, tcp} x keep-alive x retries for 2 "
-        "callers (exhaustive), random for 3-4 callers (mixed register counts, random arrival phase, TCP close() calls); schedules without any loss must serve every caller with one transmission; distinct = distinct interleavings, i.e. sequences of "
+        "callers (exhaustive), random for 3-4 callers (mixed register counts, random arrival phase, TCP close() calls); schedules without any loss (prompt, delayed-in-time or two-piece answers only) must serve every caller with one transmission; distinct = distinct interleavings, i.e. sequences of "
         "(task, event kind) over call/tx/rx/ret events")
 ASSUMPTIONS = [
     "proviso of the property: each transmission is answered at most once and before its own timeout",
@@ -22,7 +22,7 @@ ASSUMPTIONS = [
     "concurrent close() calls are included for TCP only (TCP close() takes the request lock; UDP close() is "
     "documented as immediate and would abandon the in-flight transmission by design)",
 ]
-MUST = ["lossless_schedules", "contended_handover", "retry_while_queued", "fragment_while_queued", "own_answer_checked", "windows_checked"]
+MUST = ["lossless_with_fragments", "lossless_schedules", "contended_handover", "retry_while_queued", "fragment_while_queued", "own_answer_checked", "windows_checked"]
 EXHAUSTIVE = {"quick": False, "thorough": False}
 EPS = 1e-6
 ALPHA = ["drop", "now", "intime", "frag2"]
@@ -105,9 +105,12 @@ def check_run(sc, run, part: Part):
     # a schedule without any loss (every transmission answered completely and in time) must serve every caller at once:
     # one transmission per caller, all succeed (C07 (a) / C05 under concurrency)
     syms = [e[4] if isinstance(e[4], str) else e[4][0] for e in ev if e[1] == "peer"]
-    lossless = syms and all(x in ("now", "delay", "intime") for x in syms) and not any(c["step"][0] == "close" for c in run.calls)
+    # (a two-piece answer whose second piece comes inside the timeout is complete and in time as well)
+    lossless = syms and all(x in ("now", "delay", "intime", "frag2") for x in syms) and not any(c["step"][0] == "close" for c in run.calls)
     if lossless:
         part.count("lossless_schedules")
+        if "frag2" in syms and len([c for c in run.calls if c["step"][0] == "read"]) > 1:
+            part.count("lossless_with_fragments")
         for rec in run.calls:
             if rec["step"][0] != "read":
                 continue
